@@ -80,6 +80,9 @@ package context
 //@   at every select assume (res0 >= 0 && !selsend) ==> chdone[selchan]
 //@   at every recv assume chdone[arg0]
 //@   at every before close assert [C20.chan.closeonce] !chdone[arg0]
+// audit round 3: only Cancel closes a channel. (A close of `closed` in a READ section, or in the constructor before the first
+// acquisition, broke the lock invariant unnoticed: the invariant is re-proved at write-unlocks only and assumed at acquisitions.)
+//@   at every before close assert [C20.chan.onlycancel] false
 //@   at every close ghost chdone = update(chdone, arg0, true)
 //@   at every before send assert [C20.chan.nosend] false
 //@   at every select assert [C20.chan.nosend] forall c :: !selhassend(c)
@@ -102,6 +105,9 @@ package context
 //@   at every select assume (res0 >= 0 && !selsend) ==> chdone[selchan]
 //@   at every recv assume chdone[arg0]
 //@   at every before close assert [C20.chan.closeonce] !chdone[arg0]
+// audit round 3: only Cancel closes a channel. (A close of `closed` in a READ section, or in the constructor before the first
+// acquisition, broke the lock invariant unnoticed: the invariant is re-proved at write-unlocks only and assumed at acquisitions.)
+//@   at every before close assert [C20.chan.onlycancel] false
 //@   at every close ghost chdone = update(chdone, arg0, true)
 //@   at every before send assert [C20.chan.nosend] false
 //@   at every select assert [C20.chan.nosend] forall c :: !selhassend(c)
@@ -134,6 +140,9 @@ package context
 //@   at every select assume (res0 >= 0 && !selsend) ==> chdone[selchan]
 //@   at every recv assume chdone[arg0]
 //@   at every before close assert [C20.chan.closeonce] !chdone[arg0]
+// audit round 3: only Cancel closes a channel. (A close of `closed` in a READ section, or in the constructor before the first
+// acquisition, broke the lock invariant unnoticed: the invariant is re-proved at write-unlocks only and assumed at acquisitions.)
+//@   at every before close assert [C20.chan.onlycancel] false
 //@   at every close ghost chdone = update(chdone, arg0, true)
 //@   at every before send assert [C20.chan.nosend] false
 //@   at every select assert [C20.chan.nosend] forall c :: !selhassend(c)
@@ -159,6 +168,9 @@ package context
 //@   at every select assume (res0 >= 0 && !selsend) ==> chdone[selchan]
 //@   at every recv assume chdone[arg0]
 //@   at every before close assert [C20.chan.closeonce] !chdone[arg0]
+// audit round 3: only Cancel closes a channel. (A close of `closed` in a READ section, or in the constructor before the first
+// acquisition, broke the lock invariant unnoticed: the invariant is re-proved at write-unlocks only and assumed at acquisitions.)
+//@   at every before close assert [C20.chan.onlycancel] false
 //@   at every close ghost chdone = update(chdone, arg0, true)
 //@   at every before send assert [C20.chan.nosend] false
 //@   at every select assert [C20.chan.nosend] forall c :: !selhassend(c)
